@@ -87,6 +87,23 @@ def run(ck):
             c = bytearray(b)
             c[i] = rng.choice([0, 1, 2, 0x7f, 0x80, 0xff, c[i] ^ 1, c[i] ^ 0x80, rng.randrange(256)])
             cases.append((tn, hexs(bytes(c)), "corrupted"))
+    # tagged-field skipping with every tag width, incl. 4- and 8-byte tags beyond the i32 range
+    def varint(v, width):
+        code = {1: 0, 2: 1, 4: 2, 8: 3}[width]
+        return ((((v << 2) | code)) & ((1 << (8 * width)) - 1)).to_bytes(width, "little")
+    for _ in range(1500 if ck.tier == "quick" else 15000):
+        b = b""
+        for _ in range(rng.randrange(0, 3)):
+            w = rng.choice([1, 2, 4, 8, 8])
+            lim = 1 << (8 * w - 3)
+            tag = rng.choice([0, 1, 5, lim - 1, rng.randrange(0, lim), (1 << 31) - 1, 1 << 31, (1 << 32) - 1, (1 << 32) + 5, -2, -(1 << 31) - 1]) % lim
+            if rng.random() < 0.2:
+                tag = -rng.randrange(2, 1 << 20)
+            n = rng.randrange(0, 4)
+            b += varint(tag, w) + bytes([n << 2]) + bytes(rng.randrange(256) for _ in range(n))
+        b += rng.choice([b"\xfc", varint(-1, 2), varint(-1, 4), varint(-1, 8), varint((1 << 32) - 1, 8), b""])
+        cases.append(("skiptags", hexs(b), "tags"))
+        cases.append(("genfile", hexs(b"\x04a\x04b" + b), "tags"))
     # random strings up to 64 bytes
     for _ in range(20000 if ck.tier == "quick" else 200000):
         n = rng.choice([3, 4, 5, 8, 9, 16, 33, 64])
